@@ -166,4 +166,6 @@ def same_value(a, b, tol=1e-12):
         return isinstance(b, float) and math.isnan(b) or b is None
     if isinstance(b, float) and math.isnan(b):
         return False
+    if isinstance(a, float) and math.isinf(a) or isinstance(b, float) and math.isinf(b):
+        return float(a) == float(b)
     return abs(float(a) - float(b)) <= tol * max(1.0, abs(float(a)), abs(float(b)))
